@@ -101,7 +101,7 @@ def judge2_c07(line, impl):
         sent = "".join(w for w in t[6].split(",") if w != "-") or "-"
         return ("recread %s %s %s %s %s %s" % (t[1], t[2], t[3], t[4], wire, sent), "%s eof 1" % sent)
     return None
-HOOK_COMMITS = ["f0964c3", "f0ee85c", "a38392f", "da161e5", "5e35e30", "48a35e4", "bcc879f", "e7e32d2", "7bc6616", "1d0b9a9", "1418b64", "cbd428e", "2855402", "ccf80ce", "3a7a9aa", "9982186", "9f32c22", "4c97fac", "0b6988e"]
+HOOK_COMMITS = ["f0964c3", "f0ee85c", "a38392f", "da161e5", "5e35e30", "48a35e4", "bcc879f", "e7e32d2", "7bc6616", "1d0b9a9", "1418b64", "cbd428e", "2855402", "ccf80ce", "3a7a9aa", "9982186", "9f32c22", "4c97fac", "0b6988e", "21dc541"]
 NOT_BUILT_REASON = "no check registered yet: the Lean model/theorems and the correspondence harness for this property have not been built in this session (work in progress, see DESIGN.md §12); the technique applies"
 
 PROPS["C05"] = {
@@ -352,8 +352,9 @@ PROPS["C02"] = {
 }
 
 PROPS["C13"] = {
-    "modules": ["Gmsm.Props.C13", "Gmsm.Props.SM2Group", "Gmsm.Props.C14Codec"],
+    "modules": ["Gmsm.Props.C13", "Gmsm.Props.SM2Group", "Gmsm.Props.C14Codec", "Gmsm.Props.C13Glue"],
     "theorems": [
+        "Props.C13Glue.intToBytes_eq", "Props.C13Glue.entl_eq", "Props.C13Glue.bytesCombine_eq", "Props.C13Glue.to32_eq", "Props.C13Glue.params_bytes", "Props.C13Glue.kdf_eq", "Props.C13Glue.kdf_flag", "Props.C13Glue.kdf_zero", "Props.C13Glue.za_eq", "Props.C13Glue.za_err", "Props.C13Glue.msgHash_hash", "Props.C13Glue.msgHash_eq", "Props.C13Glue.sm3Digest_eq", "Props.C13Glue.sm3Digest_os2ip", "Props.C13Glue.kex_tail", "Props.C13Glue.glue_eq", "Props.C13Glue.glue_err_ida", "Props.C13Glue.glue_err_idb", "Props.C13Glue.glue_roles_agree",
         "Props.C13.shared_point_agree", "Props.C13.reduce_scalar", "Props.C13.xbar_range", "Props.C13.xbar_mod",
         "Props.C13.offcurve_rejected", "Props.C13.infinity_not_on_curve", "Props.C13.outputs_from_V", "Props.SM2Group.kex_agree", "Props.SM2Group.smul_smul_comm_G", "Props.SM2Group.smul_mul_mod_G", "Props.SM2Group.addOrderOf_G", "Props.C14Codec.keXHat_eq",
     ],
@@ -363,12 +364,13 @@ PROPS["C13"] = {
     "note": "Trusted: the transcription of GM/T 0003.3 (validated on the published example: K = 6C893473..., S1 = D3A0FE15..., S2 = 18C7894B...); group facts from C03.",
     "trusted_base": ["Spec.SM2.kex; tie by sm2kex/sm2kexbad correspondence"],
     "assumptions": [],
-    "not_proved": ["the byte-level glue of KeyExchangeA/B around keXHat (ZA computation, KDF input assembly) as a model"],
+    "not_proved": ["the curve operations inside keyExchange are C03's model (Props.C13Glue takes the shared point V as an input: glue_eq, kex_tail); a negative klen (Go int) is not in the model's Nat"],
 }
 
 PROPS["C14"] = {
-    "modules": ["Gmsm.Props.C14", "Gmsm.Props.C14Codec", "Gmsm.Props.C18PubHex"],
+    "modules": ["Gmsm.Props.C14", "Gmsm.Props.C14Codec", "Gmsm.Props.C18PubHex", "Gmsm.Props.C14Env"],
     "theorems": [
+        "Gmsm.Props.C14Env.parse_marshal", "Gmsm.Props.C14Env.parse_only_via_key", "Gmsm.Props.C14Env.second_password_opens", "Gmsm.Props.C14Env.marshal_only_via_key", "Gmsm.Props.C14Env.hmac_equivalent_passwords", "Gmsm.Props.C14Env.parse_ok_iff", "Gmsm.Props.C14Env.parse_error_iff", "Gmsm.Props.C14Env.parse_eq", "Gmsm.Props.C14Env.wrong_password_error_or_inner", "Gmsm.Props.C14Env.wrong_password_rejected", "Gmsm.Props.C14Env.parse_trichotomy", "Gmsm.Props.C14Env.marshal_structure", "Gmsm.Props.C14Env.cbc_length", "Gmsm.Props.C14Env.cbcEncrypt_length", "Gmsm.Props.C14Env.cbcDecrypt_cbcEncrypt", "Gmsm.Props.C14Env.pad_length", "Gmsm.Props.C14Env.decrypted_marshal", "Gmsm.Props.C14Env.structural_rejections", "Gmsm.Props.C14Env.structErr_any_password", "Gmsm.Props.C14Env.prfOfOid_none_iff", "Gmsm.Props.C14Env.enc_oid_not_used", "Gmsm.Props.C14Env.dispatch_nil", "Gmsm.Props.C14Env.dispatch_non_nil", "Gmsm.Props.C14Env.parseDer_unknown_format", "Gmsm.Props.C14Env.private_key_roundtrip", "Gmsm.Props.C14Env.plain_read_with_password", "Gmsm.Props.C14Env.toy_hED", "Gmsm.Props.C14Env.toy_hInner",
         "Props.C18PubHex.readPublicKey_sound",
         "Props.C14.hex_roundtrip", "Props.C14.hex_priv_roundtrip", "Props.C14.pub_encoding_roundtrip",
         "Props.C14.sig_asn1_roundtrip", "Props.C14.compress_x_roundtrip", "Props.C14.loader_accepts_iff",
@@ -379,14 +381,15 @@ PROPS["C14"] = {
     "claim": "The codecs the library implements itself are specified in Lean and proved to round-trip for every value: hexadecimal text of any byte string, the fixed 32-byte big-endian integers behind the hex / uncompressed / compressed key forms (incl. leading zero nibbles and bytes), strict DER of (r,s); the loaders' decision is equality of the public points. The real code is compared with these specs (exact text/bytes) and every write->read pair is checked for equality on every run: hex private and public keys, compressed points (and Decompress on malformed input against a square-root spec), ASN.1 signatures and ciphertexts with short and high-bit integers, PKCS#8 PEM with nil / empty / ASCII / UTF-8 / 1 KiB passwords and wrong passwords differing in one character, case or length, PKIX public-key PEM, and all six key-pair loaders with the matching key, another key and the negated key. Added (C14Codec): byte-level models of Compress / Decompress (square root by exponentiation for p = 3 mod 4, parity fix-up) and of CipherMarshal / CipherUnmarshal (DER integers, left-padding to 32 bytes, encoding/asn1's length rules) with compress_roundtrip (every point on the curve, no side condition: the curve has no point with y = 0), decompress_sound, decompress_eq_none_iff, cipher_asn1_roundtrip (every raw ciphertext below 2^31 bytes, incl. leading-zero and high-bit coordinates) and cipherMarshal_eq_spec; the driver evaluates these models next to the spec (compressm / decompressm / cipherasn1m).",
     "note": "Partial: PKCS#8/PKIX/PEM whole-object round trips and password rejection go through encoding/asn1, encoding/pem, crypto/aes, PBKDF2 (stdlib) and are decided by read-back equality in the correspondence run, not by a theorem; compress_roundtrip's y-recovery (Euler criterion) is compared against a Lean square-root spec, not proved.",
     "trusted_base": ["toHex/ofHex, i2ospR, Spec.DER; tie by the C14 op set of the harness (intrinsic read-back oracles + exact encodings)"],
-    "assumptions": [],
-    "not_proved": ["pkcs8_enc_roundtrip / wrong password rejected as theorems", "PEM armour and PKIX wrappers (stdlib)"],
+    "assumptions": ["Props.C14Env (password-protected PKCS#8 envelope, structure level): hED - the block cipher inverts (AES is stdlib, abstract); hInner - the inner PKCS#8 parser ignores trailing bytes (the code never strips the pad); hCodec - encoding/asn1 reads back the envelope it wrote; hRej - the inner parser rejects the mis-decrypted bytes (only for the wrong-password clause: parse_only_via_key / second_password_opens prove that a password with the same derived key is indistinguishable, which is the open known finding)"],
+    "not_proved": ["the envelope model is abstract in AES, the four-hash PBKDF2 (the SM3 instance of the pbkdf loop is Props.C04HMAC.pbkdf_eq) and encoding/asn1, so its tie to x509/pkcs8.go is the end-to-end pkcs8 ops, not a line-by-line op", "PEM armour and PKIX wrappers (stdlib)"],
 }
 
 PROPS["C09"] = {
     "judge": judge_c09,
     "modules": ["Gmsm.Props.C09", "Gmsm.Props.C09Ext", "Gmsm.Props.C09Names", "Gmsm.Props.C09Sig", "Gmsm.Props.C09Template", "Gmsm.Props.C09CRLIssuer"],
     "theorems": [
+        "Props.C09.accepted_in_family_consistent", "Props.C09.inFamily_complete", "Props.C09.accepted_not_insecure", "Props.C09.insecure_refused_at_creation", "Props.C09.md5_accepted_unverifiable_before_repair",
         "Props.C09CRLIssuer.crlIssuer_parsed", "Props.C09CRLIssuer.crlIssuer_rawSubject", "Props.C09CRLIssuer.crlIssuer_template", "Props.C09CRLIssuer.crlIssuer_template_unchanged", "Props.C09CRLIssuer.crlIssuer_eq_certIssuer", "Props.C09CRLIssuer.crlIssuer_parsed_attributes", "Props.C09CRLIssuer.fill_extraNames", "Props.C09CRLIssuer.fill_names", "Props.C09CRLIssuer.onlyFixed_toRDNSequence", "Props.C09CRLIssuer.old_rule_only_fixed", "Props.C09CRLIssuer.old_rule_wrong_of_extra_attribute", "Props.C09CRLIssuer.old_rule_drops_extra_attributes", "Props.C09CRLIssuer.old_rule_reorders", "Props.C09CRLIssuer.old_rule_regroups", "Props.C09CRLIssuer.old_rule_differs",
         "Props.C09Template.seqWith_const", "Props.C09Template.aki_template_unchanged", "Props.C09Template.aki_sequence_independent", "Props.C09Template.aki_call_independent", "Props.C09Template.aki_no_stale_key_id", "Props.C09Template.old_aki_stale_witness", "Props.C09Template.csr_template_unchanged", "Props.C09Template.csr_sequence_independent", "Props.C09Template.csr_call_independent", "Props.C09Template.appendFirst_others", "Props.C09Template.merge_other_attributes_untouched", "Props.C09Template.unspecified_not_specified", "Props.C09Template.old_csr_stale_witness",
         "Props.C09.emitted_algorithm_names_scheme", "Props.C09.creators_pass_pss_options", "Props.C09.csr_pss_signed_with_pss", "Props.C09.hash_only_creator_mislabels_pss", "Props.C09Sig.decode_eq_strict", "Props.C09Sig.decode_injective", "Props.C09Sig.extra_member_rejected", "Props.C09Sig.extra_member_never_verifies", "Props.C09Sig.lenient_accepts_extra_member", "Props.C09Sig.lenient_malleable", "Props.C09Sig.decode_encSig",
@@ -701,8 +704,9 @@ PROPS["C08"] = {
 }
 
 PROPS["C20"] = {
-    "modules": ["Gmsm.Props.C20", "Gmsm.Props.C20Interlock", "Gmsm.Props.C20Locks", "Gmsm.Props.C17Mem", "Gmsm.Props.C20Reneg", "Gmsm.Props.C09Template"],
+    "modules": ["Gmsm.Props.C20", "Gmsm.Props.C20Interlock", "Gmsm.Props.C20Locks", "Gmsm.Props.C17Mem", "Gmsm.Props.C20Reneg", "Gmsm.Props.C09Template", "Gmsm.Props.C20Shared"],
     "theorems": [
+        "Props.C20Shared.write_needs_exclusive", "Props.C20Shared.read_needs_lock", "Props.C20Shared.init_only_written_fresh", "Props.C20Shared.config_write_protected", "Props.C20Shared.unguarded_writer_listed", "Props.C20Shared.discipline_splits", "Props.C20Shared.subsetOf_sound", "Props.C20Shared.writers_complete", "Props.C20Shared.writersObj_complete", "Props.C20Shared.no_problems", "Props.C20Shared.discipline_ok", "Props.C20Shared.writes_held", "Props.C20Shared.reads_held", "Props.C20Shared.cache_always_exclusive", "Props.C20Shared.ticket_key_writers", "Props.C20Shared.config_field_writers", "Props.C20Shared.cache_writers", "Props.C20Shared.certpool_writers", "Props.C20Shared.no_reentrant_calls", "Props.C20Shared.facts_present",
         "Props.C20Reneg.step_sums", "Props.C20Reneg.next_of_none", "Props.C20Reneg.next_of_some", "Props.C20Reneg.run_nil", "Props.C20Reneg.run_cons", "Props.C20Reneg.run_append", "Props.C20Reneg.Inv.step", "Props.C20Reneg.sumBy_init", "Props.C20Reneg.Inv.init", "Props.C20Reneg.Inv.next", "Props.C20Reneg.Inv.run", "Props.C20Reneg.inv_reachable", "Props.C20Reneg.localStep_kind", "Props.C20Reneg.next_kinds", "Props.C20Reneg.run_kinds", "Props.C20Reneg.run_length", "Props.C20Reneg.write_never_internal_error", "Props.C20Reneg.write_outcomes_ok", "Props.C20Reneg.sumBy_const_of_all", "Props.C20Reneg.start_kinds", "Props.C20Reneg.countP_writer_kinds", "Props.C20Reneg.writes_all_delivered", "Props.C20Reneg.no_appdata_mid_handshake", "Props.C20Reneg.write_never_runs_handshake", "Props.C20Reneg.complete_when_write_holds_hs", "Props.C20Reneg.step_isSome", "Props.C20Reneg.localStep_isSome_outHolder", "Props.C20Reneg.localStep_isSome_hsHolder", "Props.C20Reneg.localStep_isSome_free", "Props.C20Reneg.sumBy_add", "Props.C20Reneg.no_deadlock", "Props.C20Reneg.waitOut_add_notWait", "Props.C20Reneg.step_measure", "Props.C20Reneg.mu_next_le", "Props.C20Reneg.mu_run_le", "Props.C20Reneg.step_none_of_done", "Props.C20Reneg.run_of_done", "Props.C20Reneg.lt_length_of_isSome", "Props.C20Reneg.round_progress", "Props.C20Reneg.fair_termination", "Props.C20Reneg.localRem_init_le", "Props.C20Reneg.mu_init_le", "Props.C20Reneg.progress", "Props.C20Reneg.old_write_internal_error_witness", "Props.C09Template.seqWith_const", "Props.C09Template.aki_template_unchanged", "Props.C09Template.aki_sequence_independent", "Props.C09Template.aki_call_independent", "Props.C09Template.aki_no_stale_key_id", "Props.C09Template.old_aki_stale_witness", "Props.C09Template.csr_template_unchanged", "Props.C09Template.csr_sequence_independent", "Props.C09Template.csr_call_independent", "Props.C09Template.appendFirst_others", "Props.C09Template.merge_other_attributes_untouched", "Props.C09Template.unspecified_not_specified", "Props.C09Template.old_csr_stale_witness",
         "Props.C17Mem.padMem_frame",
         "Props.C20Locks.must_sound", "Props.C20Locks.may_sound", "Props.C20Locks.must_ok", "Props.C20Locks.may_ok",
